@@ -19,6 +19,55 @@ def rf_cfg(bug="none", emit=False, sheets=3, tables=2):
             % (sheets, tables, bug, "INVARIANT EmitCase\n" if emit else ""))
 
 
+PLAIN_NAMES = (dict(TABLE), dict(SHEET))
+# names that cannot stand bare in a formula (an apostrophe, a double quote, '#', braces): the library prints them quoted
+EXOTIC_NAMES = ({"A": "Bob's", "B": 'Say "hi"', "C": "Tab #1 {x}"}, {1: "It's first", 2: "Sheet #2", 3: 'The "third"'})
+
+
+def use_names(idx):
+    """every fifth case uses the exotic table / sheet names (set at the start of each job: jobs run one at a time per worker)"""
+    t, s = EXOTIC_NAMES if idx % 5 == 4 else PLAIN_NAMES
+    TABLE.clear()
+    TABLE.update(t)
+    SHEET.clear()
+    SHEET.update(s)
+
+
+def split_outside_quotes(t, sep):
+    """split at sep where it is not inside a '...' name (a doubled apostrophe inside quotes is an escaped one)"""
+    res, cur, i, inq = [], "", 0, False
+    while i < len(t):
+        if t[i] == "'":
+            if inq and t[i:i + 2] == "''":
+                cur += "''"
+                i += 2
+                continue
+            inq = not inq
+        if not inq and t.startswith(sep, i):
+            res.append(cur)
+            cur = ""
+            i += len(sep)
+            continue
+        cur += t[i]
+        i += 1
+    return res + [cur]
+
+
+def qualifiers(text, known=()):
+    """'Sheet'::'Table'::body -> ([qualifier names, unquoted], body).  A name may be printed quoted ('Bob''s') or bare; C09 asks which
+    table is named, not how the name is spelt (C18 asks that the tokenizer accepts the spelling): the quote-aware reading is taken when
+    its qualifiers are names of the document, else the plain reading (split at every '::', nothing unquoted) when those are."""
+    def unq(p):
+        return p[1:-1].replace("''", "'") if len(p) >= 2 and p[0] == "'" and p[-1] == "'" else p
+    parts = split_outside_quotes(text, "::")
+    aware = ([unq(p) for p in parts[:-1]], parts[-1])
+    plain = (text.split("::")[:-1], text.split("::")[-1])
+    for quals, last in (aware, plain):
+        if all(x in known for x in quals) and "::" not in last:
+            return quals, last
+    return aware
+
+
 def build_doc(ns, ncols=4):
     """ns: list of sheets, each a list of table name tokens -> Document with those sheets/tables (4 rows x ncols, no headers)"""
     from numbers_parser import Document
@@ -116,6 +165,7 @@ def parse_body(kind, body):
 
 def case_job(job):
     (idx, ns, pairs, seed, scratch, rename) = job
+    use_names(idx)
     warnings.simplefilter("ignore")
     from numbers_parser import Document
     from numbers_parser.generated import TSCEArchives_pb2 as TSCE
@@ -183,15 +233,15 @@ def case_job(job):
             e["wellformed"] = False
             e["sq"], e["tq"], e["body"] = 0, "", [[0, False]] * 4
             if text is not None:
-                parts = text.split("::")
-                body = parse_body(p["kind"], parts[-1])
-                if body is not None and len(parts) <= 3:
+                quals, last = qualifiers(text, set(snames) | {x for row in names for x in row})
+                body = parse_body(p["kind"], last)
+                if body is not None and len(quals) <= 2:
                     e["wellformed"] = True
                     e["body"] = body
-                    if len(parts) >= 2:
-                        e["tq"] = parts[-2]
-                    if len(parts) == 3:
-                        e["sq"] = snames.index(parts[0]) + 1 if parts[0] in snames else -1
+                    if len(quals) >= 1:
+                        e["tq"] = quals[-1]
+                    if len(quals) == 2:
+                        e["sq"] = snames.index(quals[0]) + 1 if quals[0] in snames else -1
             events.append(e)
     observe(doc, "open")
     if rename:
@@ -212,7 +262,7 @@ def case_job(job):
 NL = 3
 LABEL = {"x": "north east", "y": "south", "z": "mid", "": None,
          # labels that cannot be printed bare: operators, an apostrophe, the span separator
-         "w": "a-b", "v": "it's", "u": "up:down"}
+         "w": "a-b", "v": "it's", "u": "up:down", "q": "no #1", "r": 'say "x"', "p": "{b}"}
 
 
 def rl_cfg(bug="none", emit=False, nl=3, maxtotal=2, inv=True):
@@ -265,40 +315,22 @@ def line_node(model, target_tb, axis, i, j, ab, single, hr, hc, cross):
     return make_node(model, target_tb, axis, ends, cross)
 
 
-def parse_line_text(text, axis, snames, single):
+def parse_line_text(text, axis, snames, single, tnames=()):
     """the printed reference -> qualifiers and a body of one or two ends, each a label or a line number"""
     out = {"wellformed": False, "num": False, "sq": 0, "tq": "", "l1": "", "l2": "", "n1": 0, "n2": 0, "a1": False, "a2": False}
     if text is None:
         return out
 
-    def split_outside_quotes(t, sep):
-        """split at sep where it is not inside a '...' name (a doubled apostrophe inside quotes is an escaped one)"""
-        res, cur, i, inq = [], "", 0, False
-        while i < len(t):
-            if t[i] == "'":
-                if inq and t[i:i + 2] == "''":
-                    cur += "''"
-                    i += 2
-                    continue
-                inq = not inq
-            if not inq and t.startswith(sep, i):
-                res.append(cur)
-                cur = ""
-                i += len(sep)
-                continue
-            cur += t[i]
-            i += 1
-        return res + [cur]
-    parts = split_outside_quotes(text, "::")
-    if len(parts) > 3:
+    quals, last = qualifiers(text, set(snames) | set(tnames))
+    if len(quals) > 2:
         return out
-    ends = split_outside_quotes(parts[-1], ":")
+    ends = split_outside_quotes(last, ":")
     if len(ends) > 2:
         return out
-    if len(parts) >= 2:
-        out["tq"] = parts[-2]
-    if len(parts) == 3:
-        out["sq"] = snames.index(parts[0]) + 1 if parts[0] in snames else -1
+    if len(quals) >= 1:
+        out["tq"] = quals[-1]
+    if len(quals) == 2:
+        out["sq"] = snames.index(quals[0]) + 1 if quals[0] in snames else -1
     kinds = []
     for k, e in enumerate(ends):
         quoted = len(e) >= 2 and e[0] == "'" and e[-1] == "'"
@@ -334,6 +366,7 @@ def parse_line_text(text, axis, snames, single):
 
 def label_job(job):
     (idx, ns, labs, axis, refs, scratch, reopen) = job
+    use_names(idx)
     warnings.simplefilter("ignore")
     from numbers_parser import Document
     from numbers_parser.generated import TSCEArchives_pb2 as TSCE
@@ -377,7 +410,7 @@ def label_job(job):
                 text = None
                 e["exc"] = "%s:%s" % (type(ex).__name__, str(ex)[:60])
             e["text"] = text
-            e.update(parse_line_text(text, axis, snames, p["single"]))
+            e.update(parse_line_text(text, axis, snames, p["single"], {x for row in names for x in row}))
             events.append(e)
     observe(doc, "open")
     if reopen:
@@ -561,7 +594,7 @@ def run(ctx):
     # larger documents: up to 3 sheets x 3 tables, a third label, random references
     for n in range(40 if q else 1500):
         ns = [rng.sample(["A", "B", "C"], rng.randint(1, 3)) for _ in range(rng.randint(1, 3))]
-        labs = [[[rng.choice(["x", "y", "z", "", "x", "w", "v", "u"]) for _ in range(NL)] for _ in sh] for sh in ns]
+        labs = [[[rng.choice(["x", "y", "z", "", "x", "w", "v", "u", "q", "r", "p"]) for _ in range(NL)] for _ in sh] for sh in ns]
         tabs = [(s + 1, t + 1) for s in range(len(ns)) for t in range(len(ns[s]))]
         full = []
         for _ in range(30):
